@@ -52,6 +52,20 @@ def run(tier, replay):
     bads, lines = dbtrace.validate(c, d)
     dbtrace.judge(c, "C04", bads, lines, [])
     c.add("forced_interleavings", summary["cases"])
+    # controlled scheduling: 12 small scenarios, their interleavings at the scheduling points enumerated depth-first
+    # (budget per scenario) and then sampled at random
+    d = os.path.join(work, "systematic")
+    os.makedirs(d)
+    dfs, rnd = (25, 35) if tier == "quick" else (1500, 400)
+    summary, recs = concrun.record(c, bins["conc"], ["systematic", d, c.seed, dfs, rnd], timeout=3000)
+    concrun.findings(c, recs, ("serial", "wedge", "panic"), "C04")
+    for rec in recs:
+        if rec.get("kind") == "schedules":
+            c.add("controlled_schedules", rec["n"])
+    bads, lines = dbtrace.validate(c, d, timeout=6000)
+    dbtrace.judge(c, "C04", bads, lines, [])
+    c.add("calls_validated", summary["cases"])
+    dbtrace.cover(c, lines, nontrivial)
     r = concrun.engine_proto(c, work, True)
     if r.violated:
         raise V.Inconclusive("EngineProto (fixed lock order) violates %s on the model; reproduce as a forced interleaving before a verdict" % r.violated)
